@@ -29,7 +29,7 @@ class H3Run:
                 if rc: return ("gen", out)
                 rc, out, _ = sh(f"g++ -std=c++17 -O0 -pthread -DCTPG_VERIF -I{REPO}/include -I{VERIF}/harness/h3 -o {d}/p{k} {d}/p{k}.cpp", timeout=1800)
                 if rc: return ("compile", out)
-                rc1, _, _ = sh(f"timeout 600 {d}/p{k} > {d}/p{k}.real 2> {d}/p{k}.err", timeout=700)
+                rc1, _, _ = sh(f"timeout 300 {d}/p{k} > {d}/p{k}.real 2> {d}/p{k}.err", timeout=400)
                 rc2, out2, _ = sh(f"{self.mdir}/h3_model {d}/p{k}.cases > {d}/p{k}.model 2> {d}/p{k}.merr", timeout=1800)
                 if rc2: return ("model", open(f"{d}/p{k}.merr").read()[-800:])
                 os.remove(f"{d}/p{k}")
@@ -84,3 +84,29 @@ class H3Run:
             rp.append(f"{p},{a},{last}")
         tp = " ".join(f"{t['prec']},{t['assoc']}" for t in m["terms"]) + " 0,0 0,0"
         return {"RS": [f"{i} " + " ".join(s) if s else f"{i}" for i, s in enumerate(rs)], "RI": ri, "RP": " ".join(rp), "TP": tp}
+
+import re as _re
+def py_tokenise(meta, b, flags):
+    """the documented lexer contract for the terms as written: skip the whitespace the options name, longest match over all
+    terms, first listed wins; returns [(term, start, len)], ('eof'|'fail', pos)"""
+    skipws = flags & 2; skipnl = flags & 4
+    ws = [9, 10, 11, 12, 13, 32] if skipnl else [9, 11, 12, 13, 32]
+    pats = []
+    for t in meta["terms"]:
+        d = bytes(t["data"])
+        if t["kind"] in (0, 1): pats.append(_re.compile(_re.escape(d), _re.S))
+        else: pats.append(_re.compile(d, _re.S))
+    bb = bytes(b); i = 0; out = []
+    while True:
+        if skipws:
+            while i < len(bb) and bb[i] in ws: i += 1
+        if i >= len(bb): return out, ("eof", i)
+        best = (-1, 0)
+        for ti, pat in enumerate(pats):
+            # longest prefix matched by this term
+            ln = -1
+            for e in range(len(bb), i, -1):
+                if pat.fullmatch(bb, i, e): ln = e - i; break
+            if ln > best[1]: best = (ti, ln)
+        if best[0] < 0: return out, ("fail", i)
+        out.append((best[0], i, best[1])); i += best[1]
